@@ -462,3 +462,10 @@ def r10_9(ctx):
             ctx.need(nodes, f"assignment_expr[{op}]: operator node not found")
             b = lab(ctor(nodes[-1], "b"))
             ctx.check(f"assignment_expr[{op}] with a truth-valued source", converted(b), "source promoted / converted", f"b={b}", fn_where(idx, fi))
+
+
+@rule("R10.10", "C10", "operand-kind independence: the sort-relevant conversions (promotion, common type, bool to integer) are applied to every kind of operand alike", min_instances=20)
+def r10_10(ctx):
+    from .c02 import callback_operand_kind_independence
+
+    callback_operand_kind_independence(ctx)
